@@ -16,7 +16,7 @@ K_ASSUME = [
 HASH_MODEL = "qp_poseidon_core::hash_to_bytes stubbed by a deterministic recording model (the harness compares the preimage handed to the sponge)"
 
 
-def run_kani_check(pid, tier, jobs, functions, bounds, assumptions, timeout_q=900, timeout_t=3600, parallel=8, mem_gb=12):
+def run_kani_check(pid, tier, jobs, functions, bounds, assumptions, timeout_q=900, timeout_t=3600, parallel=8, mem_gb=12, mir=None):
     t0 = time.time()
     os.environ["RUSTFLAGS"] = f"--cfg {GUARD}"
     results = kanilib.run_many(jobs, timeout_q if tier == "quick" else timeout_t, mem_gb=mem_gb, parallel=parallel)
@@ -24,6 +24,29 @@ def run_kani_check(pid, tier, jobs, functions, bounds, assumptions, timeout_q=90
     inconcl = []
     known = [k for k in known_findings() if k.get("property") == pid and k.get("status") == "open"]
     reported = []
+    mir_results = []
+    if mir:
+        import csxlib
+        try:
+            csxlib.build_emitter()
+            mir_results, cexs = mir_queries(mir)
+        except Exception as e:
+            inconcl.append(f"MIR->SMT engine failed: {e}")
+            cexs = []
+        for r in mir_results:
+            print(f"  [mir ] {r.name:110s} {r.verdict:11s} {r.secs:6.2f}s", flush=True)
+            if r.verdict == "UNKNOWN":
+                inconcl.append(f"{r.name}: no solver verdict")
+        for rr, what, reproduced in cexs:
+            path = os.path.join(kanilib.VERIF, "evidence", "replays", f"mir.{pid}.txt")
+            os.makedirs(os.path.dirname(path), exist_ok=True)
+            open(path, "a").write(what + "\n")
+            if reproduced:
+                print(f"VIOLATION property={pid} replay={path}")
+                print(f"  failing query: {rr.name}: {what}")
+                rc = 1
+            else:
+                inconcl.append(f"{rr.name}: counterexample did not reproduce natively ({what})")
     for r in results:
         if r.verdict == "SUCCESSFUL":
             continue
@@ -61,8 +84,9 @@ def run_kani_check(pid, tier, jobs, functions, bounds, assumptions, timeout_q=90
         for m in inconcl:
             print("INCONCLUSIVE:", m)
         rc = 2
-    kanilib.write_evidence(pid, tier, t0, results, functions, bounds, K_ASSUME + assumptions, violations=1 if rc == 1 else 0, known=reported)
-    print(f"[{pid}] {sum(1 for r in results if r.verdict == 'SUCCESSFUL')}/{len(results)} harnesses verified, wall {time.time() - t0:.1f}s, exit {rc}")
+    results = results + mir_results
+    kanilib.write_evidence(pid, tier, t0, results, functions, bounds, K_ASSUME + assumptions + (["MIR->SMT (native/mirsmt.py): MIR of the current source from the nightly compiler, mathematical integers with explicit range constraints, library calls checked_mul/checked_add modelled; z3 nonlinear integer arithmetic"] if mir else []), violations=1 if rc == 1 else 0, known=reported)
+    print(f"[{pid}] {sum(1 for r in results if r.verdict == 'SUCCESSFUL')}/{len(results)} harnesses/queries verified, wall {time.time() - t0:.1f}s, exit {rc}")
     return rc
 
 
@@ -97,8 +121,8 @@ def c25(pid, tier):
                           {"integers": "all u64 / u128 values and all limb values (full width)", "digests": "all 2^256 byte strings",
                            "edge_encoding": "every byte string of length 0..9 (quick: lengths 0,1,3,4,5,8), symbolic content; injectivity follows from the round trip; longer strings outside the claim",
                            "cap": "rejection at 1 MiB + 1 byte (length-only); acceptance at exactly 1 MiB not encoded",
-                           "quantization": "amounts within 2^20 units of the u32 cap on both sides (the full-range claim needs 128-bit division by 10^10, which CBMC does not finish)"},
-                          [], timeout_q=1200, timeout_t=3600, parallel=8)
+                           "quantization": "every u128 amount via the MIR->SMT engine (Kani only within 2^20 units of the cap: 128-bit division by 10^10 does not finish in CBMC)"},
+                          [], timeout_q=1200, timeout_t=3600, parallel=8, mir="C25")
 
 
 @register("C26")
@@ -129,6 +153,203 @@ def c29(pid, tier):
     return run_kani_check(pid, tier, [("inputs", "validate_proof_count_exact"), ("inputs", "try_pi_len_exact_within_documented_counts"),
                                       ("inputs", "public_batch_parser_rejects_bad_counts_and_lengths")],
                           ["qp_wormhole_inputs::validate_proof_count", "public_batch_pi::{pi_len, try_pi_len}", "PublicBatchPublicInputs::try_from_u64_slice (count checks first)"],
-                          {"count": "every usize", "layout_length": "exact (no wrap) for all m,n <= 64, the documented range; for larger counts the parser harness shows rejection before any layout arithmetic is used",
+                          {"count": "every usize", "layout_length": "try_pi_len exact (no wrap) for ALL m,n in usize via the MIR->SMT engine (Kani cross-check for m,n <= 64); the parser harness shows rejection of out-of-range counts before layout arithmetic",
                            "outside": "the other entry points named by the property (config loader + serde round trip, circuit/prover constructors, pool, artifact builders) are not encoded"},
-                          [], timeout_q=1500, parallel=3)
+                          [], timeout_q=1500, parallel=3, mir="C29")
+
+
+# ----------------------------------------------------------------------------- MIR -> SMT queries (second native engine)
+def mir_queries(which):
+    """Full-width integer claims decided by z3 over the MIR of /repo's current source.
+    Returns list of kanilib.HarnessResult-like records (crate 'mir') and a list of (name, args) counterexamples."""
+    import subprocess
+    import z3
+    import mirsmt
+    import csxlib
+    out, cexs = [], []
+    W = 2 ** 64
+
+    def rec(name, verdict, secs):
+        r = kanilib.HarnessResult("mir", name)
+        r.verdict = {"HOLDS": "SUCCESSFUL", "CEX": "FAILED"}.get(verdict, "UNKNOWN")
+        r.secs = secs
+        r.covers = (1, 1)
+        out.append(r)
+        return r
+
+    tdir = os.path.join(kanilib.WORK, "mir-target")
+    if which == "C29":
+        mir = mirsmt.dump_mir("/repo/wormhole/inputs", tdir, ["--no-default-features"])
+        ex = mirsmt.summarize(mir, "try_pi_len")
+        m, n = ex.args[1].v, ex.args[2].v
+        exact = 12 + m * (2 * n) * 5 + m * n * 4
+
+        def goal(pc, outcome, ret):
+            if outcome != "return":
+                return z3.BoolVal(False)          # no panic / overflow outcome may be reachable
+            if ret.variant == "None":
+                return z3.Or(2 * n >= W, m * (2 * n) >= W, m * (2 * n) * 5 >= W, m * n >= W, m * n * 4 >= W, 12 + m * (2 * n) * 5 >= W, exact >= W)
+            return z3.And(ret.payload["Some"][0].v == exact, exact < W, exact == 12 + 14 * m * n)
+        res = mirsmt.prove(ex, "try_pi_len: Some(v) => v = 12+14mn exactly (no wrap); None => an intermediate exceeds usize; all m,n in usize", goal)
+        verdict = "HOLDS" if all(r[1] == "HOLDS" for r in res) and not ex.havocs else ("CEX" if any(r[1] == "CEX" for r in res) else "UNKNOWN")
+        rr = rec(f"try_pi_len_never_wraps_full_usize ({len(ex.paths)} MIR paths)", verdict, sum(r[2] for r in res))
+        for r in res:
+            if r[1] == "CEX":
+                mv = r[3]
+                a = [int(str(mv.eval(m, model_completion=True))), int(str(mv.eval(n, model_completion=True)))]
+                got = subprocess.run([csxlib.EMIT_BIN, "call", "try_pi_len", str(a[0]), str(a[1])], capture_output=True, text=True).stdout.strip()
+                want = 12 + 14 * a[0] * a[1]
+                bad = (got.startswith("Some") and int(got.split()[1]) != want) or (got == "None" and want < W and 2 * a[1] < W and a[0] * 2 * a[1] * 5 < W)
+                cexs.append((rr, f"try_pi_len({a[0]},{a[1]}) = {got}, exact value {want}", bad))
+        ex2 = mirsmt.summarize(mir, "validate_proof_count")
+        c = ex2.args[1].v
+        res2 = mirsmt.prove(ex2, "validate_proof_count", lambda pc, o, ret: (z3.BoolVal(False) if o != "return" else ((z3.And(c >= 1, c <= 64)) if ret.variant == "Ok" else z3.Or(c == 0, c > 64))))
+        verdict2 = "HOLDS" if all(r[1] == "HOLDS" for r in res2) else ("CEX" if any(r[1] == "CEX" for r in res2) else "UNKNOWN")
+        rr2 = rec(f"validate_proof_count_exact_via_mir ({len(ex2.paths)} MIR paths)", verdict2, sum(r[2] for r in res2))
+        for r in res2:
+            if r[1] == "CEX":
+                cv = int(str(r[3].eval(c, model_completion=True)))
+                got = subprocess.run([csxlib.EMIT_BIN, "call", "validate_proof_count", str(cv)], capture_output=True, text=True).stdout.strip()
+                cexs.append((rr2, f"validate_proof_count({cv}) = {got}", (got == "Ok") != (1 <= cv <= 64)))
+    if which == "C25":
+        mir = mirsmt.dump_mir("/repo/common", tdir)
+        import glob
+        import re as _re
+        src = glob.glob(os.path.expanduser("~/.cargo/registry/src/*/qp-poseidon-core-3.1.0/src/serialization.rs"))[0]
+        q = int(_re.search(r"AMOUNT_QUANTIZATION_FACTOR: u128 = ([0-9_]+)u128", open(src).read()).group(1).replace("_", ""))
+        ex = mirsmt.summarize(mir, "serialization::try_u128_to_quantized_felt", extra_consts={"qp_poseidon_core::serialization::AMOUNT_QUANTIZATION_FACTOR": q})
+        x = ex.args[1].v
+        fits = x < (2 ** 32) * q
+        res = mirsmt.prove(ex, "quantize", lambda pc, o, ret: (z3.BoolVal(False) if o != "return" else (fits if ret.variant == "Ok" else z3.Not(fits))))
+        verdict = "HOLDS" if all(r[1] == "HOLDS" for r in res) else ("CEX" if any(r[1] == "CEX" for r in res) else "UNKNOWN")
+        rr = rec(f"quantization_fails_exactly_above_u32_full_u128 ({len(ex.paths)} MIR paths; the quantization constant 10^10 is read from the pinned qp-poseidon-core source)", verdict, sum(r[2] for r in res))
+        for r in res:
+            if r[1] == "CEX":
+                xv = int(str(r[3].eval(x, model_completion=True)))
+                got = subprocess.run([csxlib.EMIT_BIN, "call", "quantize", str(xv)], capture_output=True, text=True).stdout.strip()
+                cexs.append((rr, f"try_u128_to_quantized_felt({xv}) = {got}", got.startswith("Ok") != (xv // q <= 2 ** 32 - 1)))
+    return out, cexs
+
+
+def c14_private_probe(pid, tier):
+    """Private layer of 'commit accepts => provable': the preflight itself does not finish under Kani
+    (std HashMap), so the solver is used on the circuit side only: for every clause of the acceptance
+    condition A(x) that C07 proves for the real wrapper circuit, z3 produces accepted-by-everything-else
+    models violating exactly that clause, each model is shown unsatisfiable for the REAL circuit IR
+    (UNSAT query), and the REAL preflight (guarded re-export, executed natively) must reject it."""
+    import json
+    import subprocess
+    import z3
+    import csxlib
+    import wrappers
+    csxlib.build_emitter()
+    ns = [2] if tier == "quick" else [2, 3]
+    k_models = 2 if tier == "quick" else 4
+    irs = csxlib.emit(pid, [f"priv:{n}" for n in ns])
+    recs, viol = [], []
+    for n in ns:
+        Pv = wrappers.Priv(irs[f"priv_{n}"], n)
+        dom = Pv.precond() + [z3.Or(Pv.real)] + [c[wrappers.FEE] <= 10000 for c in Pv.child]
+        dom += [z3.And(v >= 0, v < csxlib.P) for c in Pv.child for v in c]     # public inputs of a verified proof are canonical
+        for cname, clause in Pv.A_parts.items():
+            others = [c for nm, c in Pv.A_parts.items() if nm != cname]
+            s = z3.Solver()
+            s.set("timeout", 120000)
+            s.add(dom + others + [z3.Not(clause)])
+            found = 0
+            while found < k_models and s.check() == z3.sat:
+                m = s.model()
+                ev = lambda e: int(str(m.eval(e, model_completion=True)))
+                x = [[ev(v) for v in c] for c in Pv.child]
+                found += 1
+                s.add(z3.Or([v != xv for c, xc in zip(Pv.child, x) for v, xv in zip(c, xc)][:8]))
+                # (i) the real circuit cannot be satisfied for x
+                q = z3.Solver()
+                q.set("timeout", 120000)
+                q.add(Pv.base())
+                q.add([v == xv for c, xc in zip(Pv.child, x) for v, xv in zip(c, xc)])
+                circ = q.check()
+                # (ii) the real preflight on x
+                out = subprocess.run([csxlib.EMIT_BIN, "call", "preflight_priv", json.dumps(x)], capture_output=True, text=True).stdout.strip()
+                name = f"N={n}: batch violating only '{cname}' (model {found}): circuit unsatisfiable and the real commit preflight rejects it"
+                ok = (circ == z3.unsat) and out == "Err"
+                r = kanilib.HarnessResult("csx+native", name)
+                r.verdict = "SUCCESSFUL" if ok else ("FAILED" if (circ == z3.unsat and out == "Ok") else "UNKNOWN")
+                r.covers = (1, 1)
+                recs.append(r)
+                print(f"  [c14 ] {name:120s} circuit={circ} preflight={out}", flush=True)
+                if r.verdict == "FAILED":
+                    named = {f"child_{i}": x[i] for i in range(n)}
+                    named.update({f"pre_{i}": [1, 2, 3, 4 + i] for i in range(n)})
+                    rp = csxlib.replay(pid, f"priv:{n}", [{"label": "commit-accepted batch", "mode": "honest", "named": named}])
+                    path = csxlib.replay_path(pid)
+                    json.dump({"clause": cname, "children": x, "real_preflight": out, "real_wrapper_prover": rp}, open(path, "w"))
+                    viol.append((r, path, f"commit preflight accepts a batch the circuit cannot prove: violates '{cname}' (N={n}); real prover: {rp[0].get('detail')}", not rp[0].get("accepted")))
+            if found == 0:
+                r = kanilib.HarnessResult("csx+native", f"N={n}: no model violating only '{cname}' (clause not independently violable at this N)")
+                r.verdict = "SUCCESSFUL"
+                recs.append(r)
+    return recs, viol
+
+
+@register("C14")
+def c14(pid, tier):
+    t0 = time.time()
+    os.environ["RUSTFLAGS"] = f"--cfg {GUARD}"
+    results = kanilib.run_many([("agg", "public_preflight_accepts_exactly_provable_batches_m2")], 2400, mem_gb=14, parallel=1)
+    rc, inconcl, reported = 0, [], []
+    known = [k for k in known_findings() if k.get("property") == pid and k.get("status") == "open"]
+    for r in results:
+        if r.verdict == "FAILED":
+            ok, path, detail = kanilib.native_replay(r.crate, r.name)
+            if ok:
+                print(f"VIOLATION property={pid} replay={path}")
+                print(f"  failing harness: {r.crate}::{r.name}: {'; '.join(r.failed_checks[:3])}")
+                rc = 1
+            else:
+                inconcl.append(f"{r.name}: counterexample did not reproduce natively ({detail})")
+        elif r.verdict != "SUCCESSFUL":
+            inconcl.append(f"{r.name}: {r.verdict}")
+    recs, viol = c14_private_probe(pid, tier)
+    for r, path, what, reproduced in viol:
+        hit = [k for k in known if k.get("match") and k["match"] in what]
+        if reproduced and hit:
+            if hit[0]["what"] not in reported:
+                print(f"KNOWN-FINDING: property={pid} {hit[0]['what']}")
+                reported.append(hit[0]["what"])
+        elif reproduced:
+            print(f"VIOLATION property={pid} replay={path}")
+            print(f"  {what}")
+            rc = 1
+        else:
+            inconcl.append(what + " (did not reproduce)")
+    inconcl += [f"{r.name}: no verdict" for r in recs if r.verdict == "UNKNOWN"]
+    if rc == 0 and inconcl:
+        for m in inconcl:
+            print("INCONCLUSIVE:", m)
+        rc = 2
+    allr = results + recs
+    kanilib.write_evidence(pid, tier, t0, allr,
+                           ["wormhole_aggregator::public_batch::prover::lib::ensure_private_batch_compatible (Kani, via guarded re-export)",
+                            "wormhole_aggregator::private_batch::prover::lib::ensure_leaf_batch_compatible (executed natively on solver models, via guarded re-export)",
+                            "private wrapper circuit IR (build_private_batch_constraints) for the unsatisfiability side"],
+                           {"public": "Kani: every pair (M=2) of private-batch headers: preflight accepts <=> (acceptance condition proved for the public wrapper by C13) AND a real inner is present",
+                            "private": "NOT a for-all claim about the preflight code (its Kani harness does not finish: std HashMap under CBMC). For each of the five clauses of the acceptance condition that C07 proves for the real "
+                                       "wrapper circuit, z3 yields models violating exactly that clause (2 per clause and N=2 quick; 4 and N in {2,3} thorough); each model is proved unsatisfiable for the real circuit IR and the real "
+                                       "preflight must reject it. This finds 'commit accepts an unprovable batch' defects; it does not prove their absence.",
+                            "outside": "the other commit steps of C14 (length bounds, per-proof cryptographic verification, padding asset compatibility, 'rejects only for documented reasons')"},
+                           K_ASSUME + ["real qp-plonky2 proof types with empty proof bodies (the preflights only read public inputs)", "C07/C13: A(x) is exactly the wrapper circuits' acceptance condition"],
+                           violations=1 if rc == 1 else 0, known=reported, level="other")
+    print(f"[{pid}] {sum(1 for r in allr if r.verdict == 'SUCCESSFUL')}/{len(allr)} obligations discharged, wall {time.time() - t0:.1f}s, exit {rc}")
+    return rc
+
+
+def _unused_c14(pid, tier):
+    return run_kani_check(pid, tier, [("agg", "private_preflight_accepts_exactly_provable_batches_n2"), ("agg", "public_preflight_accepts_exactly_provable_batches_m2")],
+                          ["wormhole_aggregator::private_batch::prover::lib::ensure_leaf_batch_compatible (via guarded re-export)",
+                           "wormhole_aggregator::public_batch::prover::lib::ensure_private_batch_compatible (via guarded re-export)"],
+                          {"private": "every pair (N=2) of leaf statements that satisfy the C01 guarantees, canonical felts: preflight accepts <=> (wrapper acceptance condition A(x) proved for the circuit by C07) AND a real proof is present",
+                           "public": "every pair (M=2) of private-batch headers: preflight accepts <=> (acceptance condition of C13) AND a real inner is present",
+                           "outside": "larger batches; the other commit steps of C14 (length bounds, per-proof cryptographic verification under the pinned verifier, padding asset compatibility) need real proofs and are not encoded; "
+                                      "the link 'A(x) = circuit acceptance' is the C07/C13 result, the Rust predicate here is its transcription"},
+                          ["real qp-plonky2 proof types with empty proof bodies (the preflights only read public inputs)"], timeout_q=2400, timeout_t=3600, parallel=2, mem_gb=14)
